@@ -1,7 +1,7 @@
 """Parsing and comparing traces (implementation output vs model output)."""
 import re
 
-NAMED = {"cb", "dr", "heap", "live", "dd", "costs", "au", "sz", "geo"}
+NAMED = {"cb", "dr", "heap", "live", "dd", "costs", "au", "sz", "geo", "geoo"}
 _named_re = re.compile(r"^([a-z]+)=(.*)$", re.S)
 
 
